@@ -10,22 +10,25 @@ import (
 	crand "crypto/rand"
 	"crypto/x509"
 	"crypto/x509/pkix"
-	"encoding/pem"
-	"math/big"
 	"encoding/base64"
 	"encoding/binary"
 	"encoding/hex"
+	"encoding/pem"
 	"fmt"
+	"github.com/ProtonMail/go-crypto/openpgp"
+	"github.com/ProtonMail/go-crypto/openpgp/packet"
+	"github.com/openbao/openbao/v2/internal/helper/namespace"
+	"math/big"
 	"regexp"
 	"strings"
 	"sync"
 	"time"
 
+	"github.com/openbao/openbao/sdk/v2/logical"
 	"github.com/openbao/openbao/v2/internal/builtin/logical/kv"
 	"github.com/openbao/openbao/v2/internal/builtin/logical/pki"
 	"github.com/openbao/openbao/v2/internal/builtin/logical/transit"
 	"github.com/openbao/openbao/v2/internal/vault"
-	"github.com/openbao/openbao/sdk/v2/logical"
 )
 
 // The C01 monitor watches every physical write of a simulated Core:
@@ -223,8 +226,8 @@ func c01MonitorBody(rc *RunCtx) {
 	rec := NewRecorder(s)
 	opts := CoreOpts{
 		DisableCache: tp.Pick(2) == 1, Plain: tp.Pick(3) == 2, DisableSSC: tp.Pick(2) == 1, EnableRaw: true,
-		Shares: 1 + tp.Pick(3),
-		Logical: map[string]logical.Factory{"kv": kv.Factory, "kv2": kv.VersionedKVFactory, "rec": RecFactory(rec, false), "pki": pki.Factory, "transit": transit.Factory},
+		Shares:     1 + tp.Pick(3),
+		Logical:    map[string]logical.Factory{"kv": kv.Factory, "kv2": kv.VersionedKVFactory, "rec": RecFactory(rec, false), "pki": pki.Factory, "transit": transit.Factory},
 		Credential: map[string]logical.Factory{"rec": RecFactory(rec, true)},
 	}
 	opts.Thresh = 1 + tp.Pick(opts.Shares)
@@ -271,8 +274,85 @@ func c01MonitorBody(rc *RunCtx) {
 	}
 	n := 8 + tp.Pick(12)
 	var tokens []string
+	rekeyed := false
 	for i := 0; i < n && s.Viol == nil; i++ {
-		switch tp.Pick(16) {
+		switch tp.Pick(17) {
+		case 16: // rekey with PGP-encrypted shares and a stored backup: the backup record
+			// (a direct, allow-listed write) must hold the PGP messages only. With an
+			// auto-unseal style seal it is the recovery key that is rekeyed.
+			if rekeyed || opts.Shares > 3 {
+				continue
+			}
+			rekeyed = true
+			recovery := len(opts.AutoSealSecret) > 0
+			n2 := 1 + tp.Pick(3)
+			// (key pairs made here, on the simulated clock: the repository's test
+			// keys date from 2015 and are "not yet valid" in the bubble's year 2000)
+			var pubs []string
+			var ents []*openpgp.Entity
+			for j := 0; j < n2; j++ {
+				e, err := openpgp.NewEntity(fmt.Sprintf("operator %d", j), "", fmt.Sprintf("op%d@example.com", j), &packet.Config{Algorithm: packet.PubKeyAlgoEdDSA})
+				if err != nil {
+					panic(err)
+				}
+				var pb bytes.Buffer
+				if err := e.Serialize(&pb); err != nil {
+					panic(err)
+				}
+				ents = append(ents, e)
+				pubs = append(pubs, base64.StdEncoding.EncodeToString(pb.Bytes()))
+			}
+			t2 := 1
+			if n2 > 1 {
+				t2 = 2 + tp.Pick(n2-1)
+			}
+			steps = append(steps, fmt.Sprintf("rekey (recovery=%v) to %d/%d with pgp keys and backup", recovery, t2, n2))
+			if cerr := h.Core.RekeyInit(&vault.SealConfig{SecretShares: n2, SecretThreshold: t2, PGPKeys: pubs, Backup: true}, recovery); cerr != nil {
+				s.Probe("pgp_rekey_refused")
+				continue
+			}
+			conf, cerr := h.Core.RekeyConfig(recovery)
+			if cerr != nil || conf == nil {
+				continue
+			}
+			var res *vault.RekeyResult
+			for j := 0; j < opts.Thresh && j < len(h.Keys); j++ {
+				r, cerr := h.Core.RekeyUpdate(namespace.RootContext(context.Background()), append([]byte{}, h.Keys[j]...), conf.Nonce, recovery)
+				if cerr != nil {
+					e := cerr.Error()
+					if len(e) > 80 {
+						e = e[:80]
+					}
+					s.Probe("DBG " + e)
+					break
+				}
+				res = r
+			}
+			mon.Settle()
+			if res == nil || len(res.SecretShares) != n2 {
+				s.Probe("pgp_rekey_not_completed")
+				continue
+			}
+			var newKeys [][]byte
+			for j, enc := range res.SecretShares {
+				md, err := openpgp.ReadMessage(bytes.NewReader(enc), openpgp.EntityList{ents[j]}, nil, nil)
+				if err != nil {
+					s.Probe("pgp_share_not_decryptable")
+					continue
+				}
+				var pt bytes.Buffer
+				pt.ReadFrom(md.UnverifiedBody)
+				// (what was encrypted is the hex text of the share)
+				mon.AddCanary(pt.String())
+				if raw, err := hex.DecodeString(pt.String()); err == nil {
+					mon.AddCanary(string(raw))
+					newKeys = append(newKeys, raw)
+				}
+			}
+			if len(newKeys) == n2 {
+				h.Keys, h.Opts.Thresh, opts.Thresh, opts.Shares = newKeys, t2, t2, n2
+				s.Probe("pgp_rekey_with_backup")
+			}
 		case 12: // root key rotation: stored keys + keyring are rewritten
 			do("rotate root", Req{Op: logical.UpdateOperation, Path: "sys/rotate/root", Token: h.Root})
 		case 13: // a CA whose private key is known to the monitor is imported into the pki engine
